@@ -544,6 +544,36 @@ func Run(j *job.Job, s *job.Sink) {
 						bad("tables-differ-from-batch", fmt.Sprintf("after step %d: live set has %q, batch set %q", step, clip(l, 160), clip(b, 160)), map[string]any{"failed_loads_before": failedLoads})
 						return
 					}
+					// after a run that reported errors the trees are not a result of it, but a
+					// caller can still ask for them: what he gets (the names below each module
+					// and whether augments were applied) is what a fresh set gives
+					if len(perrs) > 0 && live == batch {
+						sketch := func(m *yang.Modules) (out string) {
+							defer func() {
+								if recover() != nil {
+									out = "PANIC"
+								}
+							}()
+							var ks []string
+							for k := range m.Modules {
+								ks = append(ks, k)
+							}
+							sort.Strings(ks)
+							var b strings.Builder
+							for _, k := range ks {
+								e := yang.ToEntry(m.Modules[k])
+								var cs []string
+								for cn, ce := range e.Dir {
+									cs = append(cs, fmt.Sprintf("%s/%v/%d", cn, ce.Kind, len(ce.Dir)))
+								}
+								sort.Strings(cs)
+								fmt.Fprintf(&b, "AFTER-FAILED-RUN %s: %v augments-pending=%d\n", k, cs, len(e.Augments))
+							}
+							return b.String()
+						}
+						s.Count("tree_sketches_after_failed_runs_compared", 1)
+						live, batch = sketch(ms), sketch(fresh)
+					}
 					if live != batch {
 						l, b := firstDiff(live, batch)
 						class := "differs-from-batch"
